@@ -186,6 +186,12 @@ def run_case(case, col):
         # the library's own verifier runs too, so its signature_hash calls are observed by the probe
         libv = t.verify()
     except Exception as e:
+        if spec.get('tx_witness_type') == 'legacy' and any(i['kind'] in txgen.SEGWIT_KINDS for i in spec['ins']):
+            # a transaction declared legacy cannot carry witness inputs: refusing (the library asserts) is legitimate,
+            # signing them with any digest other than BIP143 is not
+            col.probe('legacy_tx_with_segwit_input_refused')
+            STATE['armed'] = False
+            return
         col.violation(None, 'building/signing a standard transaction raised %r' % (e,), case, repr(e), 'signed transaction')
         return
     col.probe('raw_spend_check')
@@ -472,7 +478,9 @@ def run_shard(spec, col):
             if o['kind'] == 'nulldata':
                 o['value'] = 0
         case = {'spec': s, 'flow': FLOWS[k % 3], 'rseed': rnd.getrandbits(32)}
-        if rnd.random() < 0.5:
+        if rnd.random() < 0.12:
+            s['tx_witness_type'] = 'legacy'      # the Transaction object itself is declared legacy
+        if rnd.random() < 0.5 and 'tx_witness_type' not in s:
             case['route'] = rnd.choice(['add_input', 'objects'])
             if sum(i['value'] for i in s['ins']) <= sum(o['value'] for o in s['outs']):
                 case['route'] = 'add_input'   # the constructor refuses inputs < outputs (policy); add_input does not look
